@@ -182,6 +182,14 @@ inline bool nontrivial_range(std::size_t N, A3 const &mn, A3 const &sp, std::siz
   return visited >= 2 || (N > 1 && offending == 1);
 }
 
+// Observation that is stricter than the property / the documentation (exact number of callback invocations, exact
+// representation of an empty dimension, ...): recorded in the evidence as counter "info:<sig>", never a verdict.
+inline void info_check(bool cond, std::string const &sig)
+{
+  if (!cond)
+    vrt::count("info:" + sig);
+}
+
 void register_pos_shards();  // C08_pos.cpp: free functions on pos/dim/min/sup for three size types
 void register_grid_shards(); // C08_grid.cpp: grid::object, at_optional, pos_ref_range
 void register_ops_shards();  // C08_ops.cpp: resize, map, apply, fill, clamp helpers
